@@ -91,6 +91,21 @@ def cmdAdder (j : Lean.Json) : Except String Lean.Json := do
       | _ => fun x y => koggeStone x y false
     match fn with
     | "tree_multiplier" => pure (treeMultiplier fa a b)
+    | "signed_tree_multiplier" =>
+      let mulS : Pyrtl.Ops.Sig → Pyrtl.Ops.Sig → Pyrtl.Ops.Sig := fun x y =>
+        (x.1 + y.1, Pyrtl.Synth.toNat (treeMultiplier fa (bitsOf x.1 x.2) (bitsOf y.1 y.2)))
+      let r := Pyrtl.Ops.signedTreeMult mulS (widths.getD 0 0, c.getD 0 0) (widths.getD 1 0, c.getD 1 0)
+      pure (bitsOf r.1 r.2)
+    | "carrysave_adder" =>
+      pure (carrysaveAdder (fun x y => rippleAdd x y false) a b (bitsOf (widths.getD 2 0) (c.getD 2 0)))
+    | "generalized_fma" =>
+      let np := (jNat (fieldD params "npairs" (natJson 1))).toOption.getD 1
+      let ops := (widths.zip c).map fun (w, v) => bitsOf w v
+      let rec pairUp : List (List Bool) → Nat → List (List Bool × List Bool) × List (List Bool)
+        | x :: y :: rest, k + 1 => let (ps, ad) := pairUp rest k; ((x, y) :: ps, ad)
+        | rest, _ => ([], rest)
+      let (ps, ad) := pairUp ops np
+      pure (generalizedFma fa ps ad)
     | "fast_group_adder" =>
       pure (fastGroupAdder fa ((widths.zip c).map fun (w, v) => bitsOf w v))
     | "kogge_stone" => pure (koggeStone a b cin)
